@@ -4,7 +4,7 @@
     what the eager reference computes for trees of ARBITRARY height. *)
 From Coq Require Import List NArith.
 From MOC.Base Require Import RangeSet.
-From MOC.Model Require Import Qty Ops1D Expr LazyOps LazyXor.
+From MOC.Model Require Import Qty Ops1D Expr LazyOps LazyXor LazyUnary.
 Import ListNotations.
 Open Scope N_scope.
 
@@ -92,6 +92,21 @@ Example C04_nonvacuous_streaming :
   xor_new [(0, 5); (7, 10)] [(5, 7); (9, 12)] = [(0, 9); (10, 12)].
 Proof. repeat split; vm_compute; reflexivity. Qed.
 
+(** the streaming complement (NotRangeIter: ::new on the first one or two ranges, then one gap
+    per input range, then the tail) and the streaming degradation (DegradeRangeIter: the pending
+    range absorbs the degraded ranges that overlap or touch it) yield exactly the eager result;
+    the size hint of the complement brackets what it then yields, at every state *)
+Theorem C04_streaming_not_equals_eager : forall ncm l, Valid ncm l -> 0 < ncm ->
+  not_new ncm l = compl ncm l.
+Proof. exact not_new_eq_spec. Qed.
+
+Theorem C04_streaming_degrade_equals_eager : forall sh l, Canon l -> deg_new sh l = degrade sh l.
+Proof. exact deg_new_eq_spec. Qed.
+
+Theorem C04_not_size_hint_sound : forall ncm rest curr start, (curr = None -> rest = []) ->
+  (fst (not_hint curr rest) <= length (not_run ncm curr start rest) <= snd (not_hint curr rest))%nat.
+Proof. exact not_size_hint_sound. Qed.
+
 Print Assumptions C04_eager_reference_correct.
 Print Assumptions C04_pipeline_output_determined.
 Print Assumptions C04_streaming_and_equals_eager.
@@ -105,3 +120,6 @@ Print Assumptions C04_minus_size_hint_sound.
 Print Assumptions C04_or_size_hint_d03_refuted.
 Print Assumptions C04_or_peek_last_sound.
 Print Assumptions C04_minus_quick_rejection_d01_refuted.
+Print Assumptions C04_streaming_not_equals_eager.
+Print Assumptions C04_streaming_degrade_equals_eager.
+Print Assumptions C04_not_size_hint_sound.
